@@ -123,24 +123,12 @@ impl Remote for RemoteResource {
                 RemoteState::WebSocket(web_socket) => match web_socket.read() {
                     Ok(message) => match message {
                         Message::Binary(data) => {
-                            // As an optimization.
-                            // Fast check to know if there is more data to avoid call
-                            // WebSocket::read_message() again.
-                            // TODO: investigate why this code doesn't work in windows.
-                            // Seems like windows consume the `WouldBlock` notification
-                            // at peek() when it happens, and the poll never wakes it again.
-                            #[cfg(not(target_os = "windows"))]
-                            let _peek_result = web_socket.get_ref().0.peek(&mut [0; 0]);
-
                             // We can not call process_data while the socket is blocked.
                             // The user could lock it again if sends from the callback.
                             drop(state);
                             process_data(&data);
-
-                            #[cfg(not(target_os = "windows"))]
-                            if let Err(err) = _peek_result {
-                                break Self::io_error_to_read_status(&err);
-                            }
+                            // Keep reading until `WouldBlock`: the websocket can hold more
+                            // messages already buffered even if the socket itself is empty.
                         }
                         Message::Close(_) => break ReadStatus::Disconnected,
                         _ => continue,
